@@ -55,6 +55,24 @@ def replay_g_{tag}({", ".join(es + rs)}):
                 else:
                     for v in variants:
                         cond(tag, 2, 2, flags, rt, rflag, rt >= 0, v)
+    # a redirect to a redirect: R2 -> R -> template (or dangling); R may be flagged or include templates itself
+    for flags in itertools.product([False, True], repeat=2):
+        for rt in ((0, 2) if quick else (0, 1, 2)):
+            for rflag in (False, True):
+                tag = "chain_" + "".join("1" if f else "0" for f in flags) + f"_r{rt}{'f' if rflag else ''}"
+                call = f"2, [[e00, e01], [e10, e11]], [r0, r1], [q0, q1], {list(flags)!r}, {rt}, {rflag}"
+                out.append(f'''
+def g_{tag}(e00: int, e01: int, e10: int, e11: int, r0: bool, r1: bool, q0: bool, q1: bool) -> bool:
+    """
+    pre: 0 <= e00 <= 1 and 0 <= e01 <= 1 and 0 <= e10 <= 1 and 0 <= e11 <= 1
+    post: _
+    """
+    return agree_chain({call})
+
+
+def replay_g_{tag}(e00, e01, e10, e11, r0, r1, q0, q1):
+    return replay_chain({call})
+''')
     # n = 3: binary edges, all flag sets, no redirect (cycles that do not pass through the flagged template need three)
     for flags in itertools.product([False, True], repeat=3):
         cond("n3_" + "".join("1" if f else "0" for f in flags) + "_rx", 3, 1, flags, -1, False, False)
@@ -84,13 +102,13 @@ def run(rep: C.Report) -> None:
     )
     rep.extra["exhaustive_within_bound"] = True
     rep.assumptions += ["the classifier reports included templates by name without namespace prefix; a name written with a lower-case initial denotes the same template (MediaWiki rule)", "redirect propagation is applied once after the closure, as the statement's 'plus' says"]
-    rep.outside += ["graphs with more than 3 (thorough: 4) templates", "several redirect pages, redirect chains"]
+    rep.outside += ["graphs with more than 3 (thorough: 4) templates", "more than two redirect pages, chains longer than two"]
     rep.trusted += ["CrossHair 0.0.110", "z3", "sqlite3 (real)"]
     src = open(H).read() + "\n" + gen(quick)
     xh.check_harness(
         rep,
         H,
-        {"^g_": dict(name="Ob1 marked set == closure + redirect rule, analysis terminates", functions=["core.py:Wtp.analyze_templates", "core.py:Wtp.set_template_pre_expand", "core.py:Wtp.get_all_pages"], bounds="n=2 templates: 3^4 inclusion matrices x 2^2 redirect inclusions x all flag sets x all redirect placements; n=3: 2^9 matrices x all flag sets (no redirect)" + ("" if quick else "; n=3: single-flag sets x all redirect placements, 3^9 matrices for single-flag sets; n=4: 2^12 matrices without self-inclusion for single-flag sets"))},
+        {"^g_": dict(name="Ob1 marked set == closure + redirect rule, analysis terminates", functions=["core.py:Wtp.analyze_templates", "core.py:Wtp.set_template_pre_expand", "core.py:Wtp.get_all_pages"], bounds="n=2 templates: 3^4 inclusion matrices x 2^2 redirect inclusions x all flag sets x all redirect placements; n=3: 2^9 matrices x all flag sets (no redirect); redirect chain R2 -> R -> template/dangling with n=2: 2^4 matrices x inclusions of and by R x all flag sets x R flagged or not" + ("" if quick else "; n=3: single-flag sets x all redirect placements, 3^9 matrices for single-flag sets; n=4: 2^12 matrices without self-inclusion for single-flag sets"))},
         timeout=150 if quick else 3600,
         src=src,
         batch=2 if quick else 1,
